@@ -26,6 +26,15 @@ def units(rng, tier):
             a = rng.choice(["ff", "ffd", "bf", "bfd", "bc"])
             u = pack_unit(a, C, v, rng, fmt=rng.choice(gen.FORMATS), out=rng.choice(OUTS), cmp="eq", family="oversize")
             us.append(u)
+    # an oversize item next to NEGATIVE-valued items (nonsense for packing, but the refusal must not depend on the other items: the
+    # total may well be below the bin size)
+    for _ in range(40 if tier == "quick" else 400):
+        C = rng.choice([5, 10, 12, 20])
+        big = C + rng.choice([1, 2, C])
+        v = [big] + [-rng.randint(1, big) for _ in range(rng.randint(1, 2))] + [rng.randint(0, C) for _ in range(rng.randint(0, 3))]
+        rng.shuffle(v)
+        a = rng.choice(["ff", "ffd", "bf", "bfd"])
+        us.append(pack_unit(a, C, v, rng, fmt=rng.choice(["list", "dict_str", "names_valueof"]), out=rng.choice(OUTS), cmp="eq", family="oversize/with-negative-items"))
     # several oversize items whose NAMES are of different, mutually incomparable types (str, int, tuple, float keys in one dict)
     for _ in range(40 if tier == "quick" else 400):
         C, vals, fam = gen.packing_instance(rng, nmax=6)
